@@ -220,6 +220,9 @@ def _cancel_force(w, op, by_name, res, fp):
         cands = [it for it in items if (it.cancellable if what == "cancel" else it.forcible)]
     elif mode == "unknown":
         cands = []
+    elif str(mode).startswith("named:"):
+        # the offered item whose name starts with the given text (e.g. the Watch of an injected snippet)
+        cands = [it for it in items if it.name.startswith(mode[6:]) and (it.cancellable if what == "cancel" else it.forcible)]
     else:
         cands = items
     if mode == "unknown":
